@@ -136,16 +136,53 @@ func campaignC05(p *Parser, req *Request, resp *Response) {
 		// matching (another property's subject) and decides nothing here, even if
 		// a store happens to differ earlier in the run.
 		realFailed := parserFailed(r)
+		// the parser ran other blocks than the model: is there a reading of the
+		// parser's own path under which every block saw the store it should?
+		onParsersPath := func() bool {
+			if call.Opts.Memoize || contains(p.Flags, "-support-left-recursion") || !p.withStateStore() {
+				return false
+			}
+			pathOK, storesOK, at, decided := explainRun(p.Grammar(), &call, r.Events, true)
+			switch {
+			case !decided:
+				resp.stat("divergence_search_cut_short", 1)
+			case !pathOK:
+				resp.stat("divergence_without_any_reading_of_the_path", 1)
+			case storesOK:
+				resp.stat("divergence_with_stores_consistent_on_the_parsers_path", 1)
+			default:
+				if at >= len(r.Events) {
+					at = len(r.Events) - 1
+				}
+				lo := at - 3
+				if lo < 0 {
+					lo = 0
+				}
+				var ctx []string
+				for j := lo; j <= at && j >= 0; j++ {
+					ctx = append(ctx, fmt.Sprintf("%s state=%s", r.Events[j].Key(), r.Events[j].State))
+				}
+				add("state-mismatch-on-parsers-path", fmt.Sprintf("the parser ran other blocks than the reference model (a difference about matching, not judged here); but whatever it matched - any outcome of every terminal, any number of iterations of every repetition - there is no reading of its path under which the blocks up to event %d saw the stores that backtracking must give them, while a reading that produces exactly these blocks exists", at), map[string]any{"event": at, "real_context": ctx})
+				return true
+			}
+			return false
+		}
 		if len(m.Events) != len(r.Events) || (m.OK && realFailed) {
 			resp.stat("unclaimed_divergence", 1)
+			if len(m.Events) != len(r.Events) && onParsersPath() {
+				continue
+			}
 			resp.Notes = append(resp.Notes, fmt.Sprintf("unclaimed divergence: model has %d events and ok=%v, real run %d events, value nil=%v, error nil=%v [%s input %q entry %q errors %q]", len(m.Events), m.OK, len(r.Events), r.ValueNil, r.ErrNil, req.ID, call.Input, call.Opts.Entrypoint, errMsgsShort(r)))
 			continue
 		}
 		for i := 0; i < n; i++ {
 			if m.Events[i].Key() != r.Events[i].Key() {
 				resp.stat("unclaimed_divergence", 1)
-				resp.Notes = append(resp.Notes, fmt.Sprintf("unclaimed divergence at event %d: model %s, real %s", i, m.Events[i].Key(), r.Events[i].Key()))
 				diverged = true
+				if onParsersPath() {
+					break
+				}
+				resp.Notes = append(resp.Notes, fmt.Sprintf("unclaimed divergence at event %d: model %s, real %s", i, m.Events[i].Key(), r.Events[i].Key()))
 				break
 			}
 		}
